@@ -116,6 +116,12 @@ func (e *env) resolveType(x ast.Expr) types.Type {
 		}
 	case *ast.ParenExpr:
 		return e.resolveType(t.X)
+	case *ast.IndexExpr:
+		if id, ok := t.X.(*ast.Ident); ok && id.Name == "arr" {
+			if el := e.resolveType(t.Index); el != nil {
+				return arrTypeOf(el)
+			}
+		}
 	case *ast.InterfaceType:
 		return types.NewInterfaceType(nil, nil)
 	}
@@ -215,8 +221,15 @@ func (e *env) ev(x ast.Expr, hint types.Type) Val {
 			return e.ghostVal(g)
 		}
 		if e.useNames {
-			if nb, ok := e.st.names[n.Name]; ok {
-				v := e.st.get(nb.v)
+			src := e.st
+			nb, ok := src.names[n.Name]
+			if !ok && e.cur != nil {
+				// inside old(): locals are SSA values of the current path
+				src = e.cur
+				nb, ok = src.names[n.Name]
+			}
+			if ok {
+				v := src.get(nb.v)
 				if nb.isAddr {
 					pt := nb.v.Type().Underlying().(*types.Pointer)
 					return e.st.loadPtr(v, pt.Elem())
@@ -499,7 +512,12 @@ func (e *env) addrOf(x ast.Expr) Val {
 		base := e.ev(n.X, nil)
 		pt, ok := base.T.Underlying().(*types.Pointer)
 		if !ok {
-			e.fail("&x.f needs pointer base")
+			if _, isStruct := base.T.Underlying().(*types.Struct); isStruct {
+				base = e.addrOf(n.X) // x.inner.f: address of the inline struct first
+				pt = base.T.Underlying().(*types.Pointer)
+			} else {
+				e.fail("&x.f needs pointer base")
+			}
 		}
 		st := pt.Elem().Underlying().(*types.Struct)
 		fs, offs := structFields(st)
@@ -700,6 +718,51 @@ func (e *env) call(n *ast.CallExpr, hint types.Type) Val {
 			ss = append(ss, fmt.Sprintf("(store %s %s %s)", a, k.S[0], v.S[i]))
 		}
 		return Val{T: mv.T, S: ss}
+	case "contents":
+		// contents(s): the element array of the allocation unit a slice / string / pointer lives in
+		a := e.ev(n.Args[0], nil)
+		var el types.Type
+		switch at := a.T.Underlying().(type) {
+		case *types.Slice:
+			el = at.Elem()
+		case *types.Pointer:
+			el = at.Elem()
+			if arr, ok := el.Underlying().(*types.Array); ok {
+				el = arr.Elem()
+			}
+		case *types.Basic:
+			el = types.Typ[types.Uint8]
+		default:
+			e.fail("contents of %v", a.T)
+		}
+		ls := m.leaves(el)
+		if len(ls) != 1 || isRawRef(a.S[0]) {
+			e.fail("contents(): scalar elements in typed memory only")
+		}
+		h := e.st.heap("E_"+tname(el), ls[0].sort)
+		return Val{T: arrTypeOf(el), S: []string{fmt.Sprintf("(select %s %s)", h, a.S[0])}}
+	case "at":
+		c := e.ev(n.Args[0], nil)
+		nt, _ := c.T.(*types.Named)
+		el, ok := arrElem[nt]
+		if !ok {
+			e.fail("at(c arr[T], byteOffset)")
+		}
+		o := u.mat(e.ev(n.Args[1], types.Typ[types.Uintptr]), types.Typ[types.Uintptr])
+		return Val{T: el, S: []string{fmt.Sprintf("(select %s %s)", c.S[0], o.S[0])}}
+	case "updat":
+		c := e.ev(n.Args[0], nil)
+		nt, _ := c.T.(*types.Named)
+		el, ok := arrElem[nt]
+		if !ok {
+			e.fail("updat(c arr[T], byteOffset, v)")
+		}
+		o := u.mat(e.ev(n.Args[1], types.Typ[types.Uintptr]), types.Typ[types.Uintptr])
+		v := e.ev(n.Args[2], el)
+		if v.K != nil {
+			v = u.mat(v, el)
+		}
+		return Val{T: c.T, S: []string{fmt.Sprintf("(store %s %s %s)", c.S[0], o.S[0], v.S[0])}}
 	case "isnil":
 		a := e.ev(n.Args[0], nil)
 		if _, isPtr := a.T.Underlying().(*types.Pointer); isPtr || len(a.S) == 2 {
